@@ -536,6 +536,34 @@ pub fn bomb_bytes(family: &str, n: usize) -> Vec<u8> {
                 b.push([1u8, 2, 4, 5][i % 4]);
             }
         }
+        "groups-attr" => {
+            // many non-empty groups of one kind: delimiter + one small attribute each
+            for i in 0..n {
+                if i > 0 {
+                    b.push(2);
+                }
+                val(&mut b, 0x21, b"a", &(i as u32).to_be_bytes());
+            }
+        }
+        "groups-alt-attr" => {
+            // many non-empty groups of alternating kinds, two attributes each
+            for i in 0..n {
+                if i > 0 {
+                    b.push([1u8, 2, 4, 5, 2, 4][i % 6]);
+                }
+                val(&mut b, 0x44, b"k", b"v");
+                val(&mut b, 0x21, b"n", &[0, 0, 0, 7]);
+            }
+        }
+        "colls" => {
+            // many small collections (attribute = collection with one member), also as set elements
+            for i in 0..n {
+                val(&mut b, 0x34, if i % 3 == 0 { b"c" as &[u8] } else { b"" }, b"");
+                val(&mut b, 0x4a, b"", b"m");
+                val(&mut b, 0x21, b"", &[0, 0, 0, 1]);
+                val(&mut b, 0x37, b"", b"");
+            }
+        }
         "members" => {
             val(&mut b, 0x34, b"c", b"");
             for i in 0..n {
@@ -577,7 +605,10 @@ pub fn bomb_bytes(family: &str, n: usize) -> Vec<u8> {
     b
 }
 
-pub const BOMB_FAMILIES: [(&str, usize); 19] = [
+pub const BOMB_FAMILIES: [(&str, usize); 22] = [
+    ("groups-attr", 11),
+    ("groups-alt-attr", 18),
+    ("colls", 26),
     ("set-width-oob", 5),
     ("set-width-mixed", 7),
     ("attrs-empty", 8),
